@@ -100,6 +100,32 @@ def run(ctx):
     used_exc = set()
     saw_wrapping = False
     unchecked_calls = []
+    # A recorded finding names a call site: function, kind of site, operator.  Its full key also renders the operand terms, which
+    # change when the code around the site is rewritten without changing what the site does (an accessor reached through an enum
+    # instead of a trait object).  So: if a function has exactly as many undischarged sites of one (kind, operator) as there are
+    # recorded findings for that (function, kind, operator), and the rendered keys differ, the sites are those findings (reported
+    # under the recorded keys).  One site more than recorded, and nothing is renamed: every site is reported under its own key.
+    known_ar = {}
+    for kk in ctx.known["open"]:
+        if kk.startswith("C08:AR:"):
+            parts = kk[len("C08:AR:"):].split("|")
+            if len(parts) >= 4:
+                known_ar.setdefault((parts[0], parts[1], parts[2]), []).append(kk[len("C08:AR:"):])
+    open_sites = {}
+    for k in cl:
+        for s_ in P.sites_of(FB, FB.insts[k]):
+            if s_.kind in ("overflow", "unchecked") and s_.status != "discharged" and match_exception(s_) is None:
+                fk_ = s_.inst["key"] if "key" in s_.inst else s_.inst["path"]
+                open_sites.setdefault((fk_, s_.kind, s_.what), []).append(s_)
+    rename = {}
+    for cls, sites_ in open_sites.items():
+        rec = known_ar.get(cls, [])
+        exact = [s_.key() for s_ in sites_]
+        if rec and len(rec) == len(sites_) and sorted(rec) != sorted(exact):
+            unmatched_sites = [s_ for s_ in sites_ if s_.key() not in rec]
+            unmatched_rec = [r_ for r_ in rec if r_ not in exact]
+            if len(unmatched_sites) == len(unmatched_rec) == 1:
+                rename[unmatched_sites[0].key()] = unmatched_rec[0]
     for k in cl:
         inst = FB.insts[k]
         b = M.Body(inst)
@@ -113,7 +139,7 @@ def run(ctx):
             if s.kind not in ("overflow", "unchecked", "divzero"):
                 continue
             n_sites += 1
-            key = s.key()
+            key = rename.get(s.key(), s.key())
             if s.status == "discharged":
                 ctx.ok("AR", key, "%s %s cannot behave differently across profiles" % (s.kind, s.what), s.span, how=s.how, nontrivial=not s.how.startswith("R1"))
             elif s.kind == "divzero":
